@@ -19,6 +19,8 @@ ATOMS = {"$quotes": 'say "hi" \\ é ✓ #[x]'}
 QUERY = '''query MyOp {
   t { id a al: b c { d } d ...F }
   node { __typename id a ... on T { b d c { d } } }
+  only: t { oa: a ob: b }
+  deep: t { c { oc: c { d } od: a } }
 }
 
 fragment F on T { fa: a fb: b d2: d }
@@ -204,7 +206,8 @@ def main(tier, replay=None, selftest=False):
         for r, c in sample:
             cons.add_case("d%s" % vlib.stable_hash(c), "#![allow(warnings)]\n" + r["tokens"], "MyOp")
         errs = cons.build()
-        payload = {"t": {"id": "1", "a": 1, "al": "x", "c": {"d": 2}, "d": 3, "fa": 1, "fb": "y", "d2": 3},
+        payload = {"only": {"oa": 1, "ob": "x"}, "deep": {"c": {"oc": {"d": 1}, "od": 2}},
+                   "t": {"id": "1", "a": 1, "al": "x", "c": {"d": 2}, "d": 3, "fa": 1, "fb": "y", "d2": 3},
                    "node": {"__typename": "T", "id": 7, "a": 4, "b": "z", "d": 5, "c": {"d": 6}}}
         vj = []
         for r, c in sample:
@@ -223,7 +226,7 @@ def main(tier, replay=None, selftest=False):
     ck.assumptions += ["the deprecation that counts is the one declared by the type in whose scope the field is selected (object vs interface)",
                        "reason texts include quotes, backslash, non-ASCII and attribute-like text"]
     return ck.finish(exhaustive=(tier == "thorough"), rule="every assignment of 4 deprecation states to 4 probe fields x 4 strategies x 2 schema formats "
-                                                           "(quick: seeded sample of 800); 13 selected members checked per case")
+                                                           "(quick: seeded sample of 800); 17 selected members checked per case (including selection sets whose members are all deprecated)")
 
 
 if __name__ == "__main__":
